@@ -5,6 +5,7 @@
 -/
 import Imeta.Props.C13i
 import Imeta.Lemmas.XmpAttrLong
+import Imeta.Lemmas.XmpElemLong
 namespace Imeta.Props.C13
 open Imeta Imeta.Xmp
 
@@ -67,6 +68,19 @@ theorem C13_attribute_value_any_length (tag : Tag) (st : St) (v t'' : Bytes) (q 
 
 /-- non-vacuity: a 1000-byte value (third window) -/
 example : (readAttrValue {} 8 256 { rest := [61, 34] ++ List.replicate 1000 65 ++ [34, 32, 120] ++ [], a := true, toks := [] }).1.toOption.map (fun r => r.1.length) = some 1000 := by
+  decide +kernel
+
+/-- **An element value of any length up to 1535 bytes is returned exactly**, whichever of the 512 / 1024 / 1536-byte windows it
+ends in: a window without the '<' behind the value is given up without consuming anything and the search goes on from where
+it stopped in the next one. -/
+theorem C13_element_value_any_length (st : St) (c : UInt8) (v' t' : Bytes)
+    (hv : ∀ x ∈ c :: v', (x == 60) = false) (hc : isWs c = false) (hlen : (c :: v').length < 1536)
+    (hr : st.rest = (c :: v') ++ 60 :: t') (h4 : 4 < st.rest.length) :
+    readTagValue 8 512 0 0 st = (.ok (c :: v'), { st with rest := 60 :: t' }) :=
+  readTagValue_any st c v' t' hv hc hlen hr h4
+
+/-- non-vacuity: a 1200-byte value (third window) -/
+example : (readTagValue 8 512 0 0 { rest := List.replicate 1200 65 ++ [60, 47], a := false, toks := [] }).1.toOption.map (·.length) = some 1200 := by
   decide +kernel
 
 end Imeta.Props.C13
